@@ -294,33 +294,83 @@ def t2(ctx, rep, T):
         if extra:
             params_ok = False
     rep.check(bool(params_ok) and not trunc, 'T2', 'try_from:all-type-arguments', 'every type argument parsed, in order', 'RustType::try_from does not collect every generic type argument in order', {'file': f['file'], 'line': pa['line']})
-    # the name dispatch
-    nm = [m for m in f['matches'] if any(v.startswith('lit:') for a in m['arms'] for v in a['variants'])]
-    if not nm:
-        raise core.Incomplete('try_from: match over the type name not found')
-    names = {}
-    for a in nm[0]['arms']:
-        for v in a['variants']:
-            if v.startswith('lit:'):
-                names[v[4:].strip('"')] = a
+    # the name dispatch, asked per name of the inlined parser (vlib/typeparser.py): what does a path whose last segment is
+    # called N become?  (one match arm per literal, constant tables, guard arms and early returns all answer alike)
+    from .. import typeparser as tp
+    site_p = {'file': f['file'], 'line': pa['line']}
+
+    def ctor(v, name):
+        """the value is `<..>::name(args)` possibly inside RustType::Special(..): its argument list, else None"""
+        v = vt.unvar(v)
+        while isinstance(v, dict) and v.get('k') == 'call' and v.get('recv') is not None and v.get('f') in ('clone', 'into') and not v.get('args'):
+            v = vt.unvar(v['recv'])
+        if isinstance(v, dict) and v.get('k') == 'call' and v.get('recv') is None and str(v.get('f', '')).replace(' ', '').split('::')[-1] == name:
+            return v.get('args', [])
+        return None
+
+    def special_of(v):
+        a = ctor(v, 'Special')
+        return vt.unvar(a[0]) if a and len(a) == 1 else None
+
+    def draws_argument(v):
+        return any(x.get('k') == 'call' and x.get('f') == 'next' for x in vt.walk(v))
+
+    def accepted(name):
+        outs = tp.outcomes_for(ctx, name)
+        return outs, [tp.ok_payload(o) if tp.ok_payload(o) is not None else o for o in outs if not tp.is_err(o)]
+
     for cont in ('Vec', 'Option', 'HashMap'):
-        a = names.get(cont)
-        ok = a is not None and re.search(rf'SpecialRustType\s*::\s*{cont}\b', a['body']) is not None
-        rep.check(ok, 'T2', f'try_from:{cont}', f'`{cont}` → SpecialRustType::{cont}', f"RustType::try_from maps the name `{cont}` to `{a['body'][:60] if a else 'nothing'}`", {'file': f['file'], 'line': a['line'] if a else f['line']})
-    hm = names.get('HashMap')
-    if hm:
-        nexts = len(re.findall(r'\.\s*next\s*\(\s*\)', hm['body']))
-        rep.check(nexts >= 2, 'T2', 'try_from:HashMap:key-then-value', 'two successive arguments', f'RustType::try_from: HashMap consumes {nexts} type argument(s); key and value are both needed, in order', {'file': f['file'], 'line': hm['line']})
-    sp = names.get('Box')
-    have = {n for n, a in names.items() if sp is not None and a is sp}
-    missing = sorted(SMART_POINTERS - have)
-    rep.check(sp is not None and not missing, 'T2', 'try_from:smart-pointers', f'transparent wrappers: {sorted(have)}', f"RustType::try_from does not treat {missing} as transparent (serde serialises them as their inner type)", {'file': f['file'], 'line': sp['line'] if sp else f['line']})
-    if sp is not None:
-        ok = 'Special' not in sp['body'] and re.search(r'parameters', sp['body'])
-        rep.check(bool(ok), 'T2', 'try_from:smart-pointers:inner-type', 'wrapper replaced by its first type argument', f"RustType::try_from: smart pointers yield `{sp['body'][:80]}` instead of their inner type", {'file': f['file'], 'line': sp['line']})
-    wild2 = [a for a in nm[0]['arms'] if '_' in a['variants']]
-    ok = bool(wild2) and re.search(r'Self\s*::\s*Simple\s*\{\s*id\s*\}', wild2[0]['body']) and re.search(r'Self\s*::\s*Generic\s*\{\s*id\s*,\s*parameters\s*\}', wild2[0]['body'])
-    rep.check(bool(ok), 'T2', 'try_from:user-types', 'unknown names keep id and all parameters', "RustType::try_from: user types no longer keep their name and all parameters (Simple{id} / Generic{id, parameters})", {'file': f['file'], 'line': wild2[0]['line'] if wild2 else f['line']})
+        outs, oks = accepted(cont)
+        args = [ctor(special_of(o), cont) if special_of(o) is not None else None for o in oks]
+        ok = bool(oks) and all(a is not None and len(a) == (2 if cont == 'HashMap' else 1) and all(draws_argument(x) for x in a) for a in args)
+        rep.check(ok, 'T2', f'try_from:{cont}', f'`{cont}` → SpecialRustType::{cont} of its type argument(s)', f"RustType::try_from maps the name `{cont}` to `{vt.show(oks[0])[:70] if oks else 'no accepted value'}` — expected RustType::Special(SpecialRustType::{cont}(..)) built from its type argument(s)", site_p)
+        if cont == 'HashMap' and ok:
+            def var_chain(x):
+                # names of the locals the value is a (cloned / converted / `?`-unwrapped) copy of
+                names, d = set(), 0
+                while isinstance(x, dict) and d < 20:
+                    d += 1
+                    if x.get('k') == 'var':
+                        names.add(x.get('name'))
+                        x = x.get('v')
+                    elif x.get('k') in ('try', 'ref', 'deref', 'paren'):
+                        x = x.get('v')
+                    elif x.get('k') == 'call' and x.get('recv') is not None and x.get('f') in ('into', 'clone', 'to_owned') and not x.get('args'):
+                        x = x['recv']
+                    else:
+                        break
+                return names
+            same = [a for a in args if var_chain(a[0]) & var_chain(a[1])]
+            rep.check(not same, 'T2', 'try_from:HashMap:key-then-value', 'two successive arguments', 'RustType::try_from: HashMap uses one type argument for both key and value; key and value are both needed, in order', site_p)
+    wrapped, plain = [], []
+    for n in sorted(SMART_POINTERS):
+        outs, oks = accepted(n)
+        if oks and all(special_of(o) is None and ctor(o, 'Simple') is None and not any(x.get('k') == 'struct' for x in vt.walk(o)) and draws_argument(o) for o in oks):
+            plain.append(n)
+        else:
+            wrapped.append((n, vt.show(oks[0])[:80] if oks else 'no accepted value'))
+    rep.check(not wrapped, 'T2', 'try_from:smart-pointers', f'transparent wrappers: {plain}', f"RustType::try_from does not treat {[n for n, _ in wrapped]} as transparent (serde serialises them as their inner type): `{wrapped[0][0] if wrapped else ''}<T>` becomes `{wrapped[0][1] if wrapped else ''}` instead of its first type argument", site_p)
+    # primitives: the name selects the IR variant of the same name
+    PRIMS = {'bool': 'Bool', 'char': 'Char', 'String': 'String', 'str': 'String', 'i8': 'I8', 'i16': 'I16', 'i32': 'I32', 'I54': 'I54', 'u8': 'U8', 'u16': 'U16', 'u32': 'U32', 'U53': 'U53', 'f32': 'F32', 'f64': 'F64'}
+    wrong = []
+    for n, want in PRIMS.items():
+        outs, oks = accepted(n)
+        got = set()
+        for o in oks:
+            sv = special_of(o)
+            while isinstance(sv, dict) and sv.get('k') == 'call' and sv.get('recv') is not None and sv.get('f') in ('clone', 'into') and not sv.get('args'):
+                sv = vt.unvar(sv['recv'])
+            got.add(str(sv.get('text', '')).replace(' ', '').split('::')[-1] if isinstance(sv, dict) and sv.get('k') == 'path' else vt.show(o)[:40])
+        if got != {want} or len(outs) != len(oks):
+            wrong.append((n, want, sorted(got), len(outs) - len(oks)))
+    rep.check(not wrong, 'T2', 'try_from:primitives', f'{len(PRIMS)} primitive names select the IR variant of the same name', f"RustType::try_from: the primitive `{wrong[0][0] if wrong else ''}` becomes {wrong[0][2] if wrong else ''}{' or an error' if wrong and wrong[0][3] else ''}, expected SpecialRustType::{wrong[0][1] if wrong else ''} (its width / JSON category decides the target type)" + (f' (+{len(wrong) - 1} more)' if len(wrong) > 1 else ''), site_p)
+    # user types: an unknown name keeps its id and every parameter
+    outs, oks = accepted('SomeUserType')
+    structs = [x for o in oks for x in vt.walk(o) if x.get('k') == 'struct']
+    simple = [x for x in structs if str(x.get('path', '')).replace(' ', '').endswith('Simple') and tp.name_key(x.get('fields', {}).get('id'))]
+    generic = [x for x in structs if str(x.get('path', '')).replace(' ', '').endswith('Generic') and tp.name_key(x.get('fields', {}).get('id')) and any(y.get('k') == 'call' and str(y.get('f', '')).replace(' ', '').split('::')[-1] in ('try_from', 'type_arguments', 'collect') for y in vt.walk(x['fields'].get('parameters') or {}))]
+    ok = bool(simple) and bool(generic) and len(oks) == len(outs)
+    rep.check(ok, 'T2', 'try_from:user-types', 'unknown names keep id and all parameters', "RustType::try_from: user types no longer keep their name and all parameters (Simple{id} / Generic{id, parameters})" + (f": `{vt.show(oks[0])[:90]}`" if oks else ''), site_p)
 
 
 def t3(ctx, rep, T):
